@@ -64,7 +64,8 @@ def _child(argv, cwd, stdin_data, log_path, out_path, err_path):
         os.dup2(fe, 2)
         sys.stdin = open(0, "r", encoding="utf-8", closefd=False)  # pylint: disable=consider-using-with
         sys.stdout = open(1, "w", encoding="utf-8", closefd=False)  # pylint: disable=consider-using-with
-        sys.stderr = open(2, "w", encoding="utf-8", closefd=False)  # pylint: disable=consider-using-with
+        # like the interpreter's own stderr, which escapes what it cannot encode (stdout is strict)
+        sys.stderr = open(2, "w", encoding="utf-8", errors="backslashreplace", closefd=False)  # pylint: disable=consider-using-with
         log = {"events": [], "opens": [], "exit": None, "exc": None}
         from pdpy11 import reports, _cli
         real_emit = reports.emit_report
